@@ -54,8 +54,8 @@ impl Check for C15 {
     }
     fn total_cases(&self, tier: Tier) -> u64 {
         match tier {
-            Tier::Quick => 32,
-            Tier::Thorough => 4000,
+            Tier::Quick => 96,
+            Tier::Thorough => 8000,
         }
     }
     fn budget_s(&self, tier: Tier) -> u64 {
